@@ -16,3 +16,50 @@ package metric
 //@   ensures r == nil ==> forall a in 0 .. len(h.Boundaries) : forall b in 0 .. a : h.Boundaries[b] < h.Boundaries[a]
 //@   loop#1 invariant forall a in 0 .. $k + 1 : forall b in 0 .. a : h.Boundaries[b] < h.Boundaries[a]
 //@   loop#1 invariant i === h.Boundaries[$k] && $k + 1 <= len(h.Boundaries)
+
+// ======================================================================== C15 metric provider lifecycle
+// unify: the combined function calls EVERY given function exactly once, in order, whatever errors the earlier ones return
+// and whatever state the context is in (a reader must not be skipped: unifyShutdown's sync.Once is consumed by the first call)
+//@ ghost var unifyCalls int
+//@ func unify$1(ctx context.Context) (err error)
+//@   prop C15
+//@   overflow assumed
+//@   unchecked frame the functions are unknown function values
+//@   requires forall i in 0 .. len(funcs) : funcs[i] != nil
+//@   modifies ghost unifyCalls
+//@   ghost@entry : unifyCalls = 0
+//@   assert@call funcvalue#* : unifyCalls == $k && $arg0 == ctx
+//@   ghost@call funcvalue#* : unifyCalls = unifyCalls + 1
+//@   assert@return#* : unifyCalls == len(funcs)
+//@   loop#1 invariant unifyCalls == $k
+
+// ======================================================================== C08 observable instruments: one observer per pipeline
+// the observer handed to a callback registered with a pipeline records into exactly that pipeline's measures
+//@ func (m *meter) float64ObservableInstrument$1() (r float64Observable, err error)
+//@   prop C08
+//@   overflow assumed
+//@   unchecked frame,no-panic pipeline and resolver plumbing is outside the contracts
+//@   acquires pipeline.Mutex
+//@   assert@store measures#2 : $val === in
+//@ func (m *meter) int64ObservableInstrument$1() (r int64Observable, err error)
+//@   prop C08
+//@   overflow assumed
+//@   unchecked frame,no-panic pipeline and resolver plumbing is outside the contracts
+//@   acquires pipeline.Mutex
+//@   assert@store measures#2 : $val === in
+
+// ======================================================================== C12 several matching views: no measurement is duplicated
+// inserter.Instrument: the aggregate functions attached to an instrument are de-duplicated by the IDENTITY the aggregator cache
+// returns for them (two views that resolve to the same cached aggregate function attach it once) - the `seen` set is keyed by
+// exactly that id, and a function is appended only when its id was not seen
+//@ func (i *inserter[N]) Instrument(inst Instrument, readerAggregation Aggregation) (measures []aggregate.Measure[$N], err error)
+//@   prop C12
+//@   instances int64; float64
+//@   overflow assumed
+//@   unchecked frame,no-panic view functions, the aggregator cache and logging are outside the contracts
+//@   assert@call mapupdate#1 : $arg0 == seen && $arg1 == id && !has(seen, id) && in != nil
+//@   loop#1 invariant seen != nil
+//@ func (i *inserter[N]) cachedAggregator(scope instrumentation.Scope, kind InstrumentKind, stream Stream, readerAggregation Aggregation) (meas aggregate.Measure[$N], aggID uint64, err error)
+//@   prop -
+//@   instances int64; float64
+//@   trusted "aggregator cache (generic cache with its own lock, pipeline registration): result arbitrary; only used as the source of the id"
